@@ -246,6 +246,11 @@ impl BlockData {
         }
 
         match self.last_slice {
+            // a slice already received beyond the one now marked last contradicts the marker,
+            // no matter which of the two arrived first
+            None if is_last && self.shreds.keys().next_back().is_some_and(|&l| l > slice_index) => {
+                return Err(AddShredError::Equivocation);
+            }
             None if is_last => self.mark_last_slice(slice_index),
             None => {}
             Some(l) => {
